@@ -416,3 +416,5 @@ HARNESSES.append(Harness(
     bounds={"retry": "due in an hour", "further deferred messages": "the declared capacity of the delayed queue (x-max-length, if any; else 2) plus 0..2"},
     functions=["connections/rabbitmq/message_broker.py:RabbitMessageBroker.queue_declare", "connections/rabbitmq/message_broker.py:RabbitMessageBroker.enqueue"],
     covers=["crowded-delayed-queue"], stubs=["fake AMQP server: x-max-length with drop-head through the declared DLX; the filler messages are put there by the stub"]))
+from engine.harness import borrowed  # noqa: E402
+HARNESSES.append(borrowed("c13", "H13-chain", "H04-chain-with-results"))         # the retry chain goes on whatever the result store does
